@@ -98,6 +98,7 @@ func loadRepo(dir string, overlay map[string][]byte) (*Ctx, error) {
 	chanFieldAliasMemo = map[string]string{}
 	dualSwapMemo = map[string][3]int{}
 	embeddedMemo = map[string]bool{}
+	stateEnumMemo = map[*ssa.Function]*stateEnum{}
 	permMemo = map[*ssa.Function][]string{}
 	acquiredMemo = map[*ssa.Function]lockset{}
 	// Enumerate functions: package members, methods of every named type (AllFunctions misses methods of
@@ -166,6 +167,7 @@ func loadRepo(dir string, overlay map[string][]byte) (*Ctx, error) {
 	chanFieldAliasMemo = map[string]string{}
 	dualSwapMemo = map[string][3]int{}
 	embeddedMemo = map[string]bool{}
+	stateEnumMemo = map[*ssa.Function]*stateEnum{}
 	permMemo = map[*ssa.Function][]string{}
 	acquiredMemo = map[*ssa.Function]lockset{}
 	return c, nil
